@@ -148,7 +148,10 @@ def run(case):
         if got is None or len(got) != 3:
             R.fail(f"{m}: returned {got!r}, expected a list [s1, s1rc, s2]", sig=dict(feat, clause="shape"))
             break
-        g = [float(v) for v in got]
+        if any(isinstance(v, complex) or not np.isreal(v) for v in got):
+            R.fail(f"{m}: non-real entry in {got!r} at r={r}, eps={ep}, sigma={sg}, r_c={r_c}, {par}", sig=dict(feat, clause="complex"), exp=exp)
+            break
+        g = [float(np.real(v)) for v in got]
         rows.append(g)
         stop = False
         for k, name in enumerate(("s1", "s1rc", "s2")):
